@@ -20,6 +20,7 @@ Deciding monitors:
 import numpy as np
 
 from vf import lops
+from vf.monitors import STATE
 from vf.common import Plan, crandn, held, violated, inconclusive, rng_for, nrm, pick
 
 SPEC = {
@@ -110,13 +111,15 @@ def run_lin(case):
         x = crandn(rng, ish)
         y = crandn(rng, ish)
         x0, y0 = x.copy(), y.copy()
+        STATE.peak = 0.0
         Ax, Ay = np.asarray(A(x)), np.asarray(A(y))
+        peak = STATE.peak
         worst = 0.0
         for a in (1j, complex(rng.standard_normal(), rng.standard_normal())):
             lhs = np.asarray(A(a * x + y))
             rhs = a * Ax + Ay
             checks += 1
-            sc = abs(a) * nrm(Ax) + nrm(Ay) + 1e-3 * (abs(a) * nrm(x) + nrm(y))
+            sc = abs(a) * nrm(Ax) + nrm(Ay) + 1e-3 * (1 + abs(a)) * max(nrm(x), nrm(y), peak)
             e = nrm(lhs - rhs) / sc if sc > 0 else nrm(lhs - rhs)
             worst = max(worst, e)
             if not e <= tol:
